@@ -113,7 +113,19 @@ impl TypeSpec {
     pub fn item(&self) -> ItemDef {
         let g = if self.generic() { "<T>" } else { "" };
         let fields_of = |v: &VariantSpec| -> FieldsDef {
-            let fs: Vec<FieldDef> = v.fields.iter().map(|f| FieldDef::tuple(f.ty.text()).attrs(&combo_attrs_id(&f.combo, self.style, f.form, f.identity))).collect();
+            let fs: Vec<FieldDef> = v.fields.iter().enumerate().map(|(i, f)| {
+                let mut attrs = combo_attrs_id(&f.combo, self.style, f.form, f.identity);
+                // helper attributes need not be adjacent: on every other field foreign attributes sit between and around them
+                if i % 2 == 0 && attrs.len() >= 2 {
+                    let mut spaced = vec!["#[doc = \" d\"]".to_string()];
+                    for a in attrs {
+                        spaced.push(a);
+                        spaced.push("#[allow(unused)]".to_string());
+                    }
+                    attrs = spaced;
+                }
+                FieldDef::tuple(f.ty.text()).attrs(&attrs)
+            }).collect();
             match v.kind {
                 VKind::Unit => FieldsDef::Unit,
                 VKind::Tuple => FieldsDef::of(false, fs),
